@@ -1,6 +1,7 @@
 import Slu.Proto
 import Slu.Model.History
 import Slu.Model.Struct
+import Slu.Model.Mem
 import Slu.Drv.Lu
 -- HANDLER history => Slu.Drv.History.handle
 /-
@@ -22,6 +23,22 @@ Prop  (on the implementation's outputs, exact rationals), per factoring step w.r
 Corr  (a) bit mirror of `[sdcz]pivotL` on every pivot event incl. those with `usepr = 1`;
       (b) the history replayed through `Slu.History.stepCall` in `Cx Rat`: on rounding-free steps
           perm_r, L, U and the reuse/abandon decision must equal the implementation's.
+
+Storage clauses (messages start with `storage:`; C07 / C08 run this family with `only=…|storage:` in a caller
+work area).  The harness samples the allocator state (hook H2 side: `Glu->stack`, the four base pointers,
+`nzlumax/nzumax/nzlmax`, `num_expansions`, `expanders[].size`) on entry of every factoring call (`mem.in`), at
+its first pivot call (`mem.first`) and on return (`mem.out`).
+Prop  on `mem.first` and `mem.out` (caller work area): the pointer arrays and the four L/U arrays lie in
+      address order inside `[0, top2]`, `top2 <= size <= lwork` — nothing handed to a writer is outside the
+      caller's buffer or inside the work arrays at its tail.
+Corr  (c) `SamePattern_SameRowPerm` steps: `Slu.Mem.memInitReuse` applied to `mem.in` must give `mem.first`
+          field by field (mode, n, used/top1/top2/size, the four offsets resp. pointer identity, the four
+          recorded lengths, nzlumax/nzumax/nzlmax, num_expansions, alignment, end of the pointer arrays);
+      (d) every factoring step: from `mem.first` the model grows each array (`memXpand`, UCOL together with
+          USUB) to the length the implementation ended with, then `workFree`: lengths, `num_expansions`,
+          used/top1/top2/size and the four offsets must equal `mem.out`;
+      (e) `mem.in` of a step equals `mem.out` of the previous factoring step (FACTORED calls and the
+          caller's clean-up of the two Store headers do not touch `Glu`).
 -/
 namespace Slu.Drv.History
 open Slu Slu.LU Slu.Drv.Lu Slu.History
@@ -164,6 +181,111 @@ def propEvents (n : Nat) (evs : Array Ev) (sameRowPerm : Bool) (permRin permR : 
 def reuseStats (evs : Array Ev) : Nat × Nat :=
   evs.foldl (fun (a : Nat × Nat) e => if e.useprIn ∧ e.info = 0 then (if e.useprOut then (a.1, a.2 + 1) else (a.1 + 1, a.2)) else a) (0, 0)
 
+
+/-! ### allocator replay (storage clauses) -/
+section Storage
+open Slu.Mem
+
+/-- one sampled record (see harness/fam_history.c, `hm_sample`) -/
+def memRec (sc : Case) (nm : String) : Option (Array Int) :=
+  let a := sc.int nm
+  if a.size = 20 then some a else none
+
+/-- the record as an allocator state.  Library allocation: the four "offsets" are block numbers; the previous
+factorization's blocks are numbered 1..4 (`mallocs = 4`), so that the model's answer "same block" can be
+compared with the pointer-identity flags of the sample. -/
+def stOfRec (a : Array Int) : St :=
+  let g (i : Nat) : Int := a.getD i 0
+  let user := g 0 ≠ 0
+  { user := user, base4 := g 18 = 4, n := g 1, size := g 5, used := g 2, top1 := g 3, top2 := g 4, hdrOk := true,
+    hdrEnd := if user then g 19 else 0,
+    offL := if user then g 6 else 1, offU := if user then g 7 else 2, offS := if user then g 8 else 3, offB := if user then g 9 else 4,
+    capL := if g 14 ≥ 0 then g 14 else g 10, capU := if g 15 ≥ 0 then g 15 else g 11, capS := if g 16 ≥ 0 then g 16 else g 12,
+    capB := if g 17 ≥ 0 then g 17 else g 11, nexp := g 13, mallocs := if user then 0 else 4 }
+
+def memWords (c : Case) : Words :=
+  let a := c.int "mem.words"
+  { iw := a.getD 0 4, liw := a.getD 1 4, dw := a.getD 2 8 }
+
+def memCfg (c : Case) (n : Nat) (annz : Nat) : Cfg :=
+  let e := c.int "mem.ienv"
+  let ms := e.getD 3 0; let ims := e.getD 7 0
+  { m := n, n := n, annz := annz, panel := e.getD 1 0, maxsuper := if ms > ims then ms else ims, rowblk := e.getD 4 0,
+    fill := e.getD 6 0, lwork := c.pInt "lwork", w := memWords c }
+
+/-- Prop: everything handed to a writer lies inside the caller's buffer, below the work arrays, in address order -/
+def propConfined (w : Words) (lwork : Int) (a : Array Int) : Option String :=
+  let s := stOfRec a
+  if ¬ s.user then none else
+  let hdr := 2 * ((s.n + 1) * w.iw) + 3 * ((s.n + 1) * w.liw)
+  if s.hdrEnd - hdr < 0 then some s!"the pointer arrays start at offset {s.hdrEnd - hdr} of the work area" else
+  if ¬ (s.hdrEnd ≤ s.offL ∧ s.offL + s.capL * w.dw ≤ s.offU ∧ s.offU + s.capU * w.dw ≤ s.offS ∧ s.offS + s.capS * w.liw ≤ s.offB) then
+    some s!"L/U arrays overlap: pointer arrays end at {s.hdrEnd}, LUSUP {s.offL}+{s.capL}x{w.dw}, UCOL {s.offU}+{s.capU}x{w.dw}, LSUB {s.offS}+{s.capS}x{w.liw}, USUB {s.offB}"
+  else if ¬ (s.offB + s.capU * w.liw ≤ s.top2) then
+    some s!"USUB ({s.offB}+{s.capU}x{w.liw}) reaches into the work arrays at the tail (top2 = {s.top2})"
+  else if ¬ (0 ≤ s.top2 ∧ s.top2 ≤ s.size ∧ s.size ≤ lwork) then some s!"top2 = {s.top2}, size = {s.size}, lwork = {lwork}"
+  else none
+
+def showSt (s : St) : String :=
+  s!"user={s.user} n={s.n} used/top1/top2/size={s.used}/{s.top1}/{s.top2}/{s.size} off={s.offL},{s.offU},{s.offS},{s.offB} len={s.capL},{s.capU},{s.capS},{s.capB} nexp={s.nexp} hdrEnd={s.hdrEnd} base4={s.base4}"
+
+/-- the fields of two states that a sample determines -/
+def sameSt (x y : St) : Bool :=
+  x.user == y.user && x.n == y.n && x.capL == y.capL && x.capU == y.capU && x.capS == y.capS && x.capB == y.capB && x.nexp == y.nexp &&
+  (x.offL, x.offU, x.offS, x.offB) == (y.offL, y.offU, y.offS, y.offB) &&
+  (!x.user || ((x.used, x.top1, x.top2, x.size) == (y.used, y.top1, y.top2, y.size) && x.hdrEnd == y.hdrEnd && x.base4 == y.base4))
+
+/-- Corr (c): the re-adopting `LUMemInit` -/
+def corrReuseInit (cfg : Cfg) (ain afirst : Array Int) : Option String :=
+  let prev := stOfRec ain
+  let impl := stOfRec afirst
+  let r := memInitReuse (fun _ => false) cfg prev
+  if r.info ≠ 0 then some s!"model: LUMemInit (SamePattern_SameRowPerm) fails with info={r.info} from [{showSt prev}], the implementation went on"
+  else
+  -- library allocation: the sample says whether each base pointer is the one seen on entry
+  let ptrOk := impl.user || ((afirst.getD 6 0, afirst.getD 7 0, afirst.getD 8 0, afirst.getD 9 0) == ((1 : Int), (1 : Int), (1 : Int), (1 : Int)))
+  let nzOk := (afirst.getD 10 0, afirst.getD 11 0, afirst.getD 12 0) == (r.st.capL, r.st.capU, r.st.capS)
+  if sameSt r.st impl && ptrOk && nzOk then none
+  else
+    let rr := memInitReuseReset (fun _ => false) cfg prev
+    let hint := if rr.info = 0 && sameSt rr.st impl then " - this is what a set-up through SetupSpace (used = top1 = 0) gives" else ""
+    some s!"LUMemInit (SamePattern_SameRowPerm) model [{showSt r.st}] implementation [{showSt impl}] nz={afirst.getD 10 0},{afirst.getD 11 0},{afirst.getD 12 0} pointers-kept={ptrOk} from [{showSt prev}]{hint}"
+
+def growLoop (fx : Fixes) (w : Words) (t : MemType) (target : Int) : Nat → St → Except String St
+  | 0, _ => .error "more than 64 expansions of one array"
+  | f+1, s =>
+    if s.nz t = target then .ok s
+    else if s.nz t > target then .error s!"model length {s.nz t} of {repr t} passed the implementation's {target}"
+    else match memXpand fx w (fun _ => false) t s with
+      | (s1, 0) =>
+        if t = .UCOL then
+          match memXpand fx w (fun _ => false) .USUB s1 with
+          | (s2, 0) => growLoop fx w t target f s2
+          | (_, e) => .error s!"model USUB expansion fails (info {e})"
+        else growLoop fx w t target f s1
+      | (_, e) => .error s!"model {repr t} expansion fails (info {e}) where the implementation reached length {target}"
+
+/-- Corr (d): from the state at the first pivot call to the state on return -/
+def corrGrowth (w : Words) (afirst aout : Array Int) : Option String :=
+  let s0 := stOfRec afirst
+  let out := stOfRec aout
+  let tryFx (fx : Fixes) : Except String Unit := do
+    let s1 ← growLoop fx w .LUSUP out.capL 64 s0
+    let s2 ← growLoop fx w .UCOL out.capU 64 s1
+    let s3 ← growLoop fx w .LSUB out.capS 64 s2
+    let s := workFree s3
+    if s.nexp - 1 ≠ out.nexp then throw s!"num_expansions model {s.nexp - 1} implementation {out.nexp}"
+    if s.user ∧ ((s.used, s.top1, s.top2, s.size) ≠ (out.used, out.top1, out.top2, out.size) ∨ (s.offL, s.offU, s.offS, s.offB) ≠ (out.offL, out.offU, out.offS, out.offB)) then
+      throw s!"on return: model [{showSt s}] implementation [{showSt out}]"
+    return ()
+  match tryFx current with
+  | .ok _ => none
+  | .error e1 => match tryFx fixed with
+    | .ok _ => none
+    | .error e2 => some s!"growth from [{showSt s0}]: current model: {e1}; repaired model: {e2}"
+
+end Storage
+
 def bucket (k : Nat) : String := if k = 0 then "0" else if k = 1 then "1" else if k ≤ 3 then "2-3" else "4+"
 
 def handleAll (c : Case) : Res := Id.run do
@@ -182,6 +304,11 @@ def handleAll (c : Case) : Res := Id.run do
   let mut nExactSteps := 0; let mut nExactAbandon := 0; let mut nResync := 0; let mut nExpand := 0; let mut nEquil := 0; let mut nReuseExpand := 0
   let mut corrMsg : Option String := none
   let mut transSeen : List String := []
+  -- storage clauses: allocator samples of the factoring calls
+  let memW := memWords c
+  let memC := memCfg c n rowind.size
+  let mut lastOut : Option (Array Int) := none
+  let mut nReuseInit := 0; let mut nGrowth := 0; let mut nReuseGrew := 0
   for k in List.range nsteps do
     let sc := subCase c k
     let fact := sc.p "fact"
@@ -195,6 +322,14 @@ def handleAll (c : Case) : Res := Id.run do
       if sc.p "evoverflow" ≠ "0" then return Res.skip "event log inconsistent"
       if infoRaw < 0 then return Res.propFalse s!"step {k} ({fact}): info = {infoRaw} on legal arguments" tg
       if info > n + 1 then return Res.propFalse s!"step {k} ({fact}): info = {info} (memory failure) although storage is ample" tg
+      -- storage, Prop: what was handed to writers lies inside the caller's work area
+      for nm in ["mem.first", "mem.out"] do
+        match memRec sc nm with
+        | some a =>
+          match propConfined memW memC.lwork a with
+          | some msg => return Res.propFalse s!"step {k} ({fact}): storage: {nm}: {msg}" tg
+          | none => pure ()
+        | none => pure ()
       let some eq := equedOf (sc.p "equed") | return Res.propFalse s!"step {k}: equed = '{sc.p "equed"}'" tg
       if sc.p "equil" == "0" ∧ eq ≠ .N then return Res.propFalse s!"step {k}: Equil = NO but equed = {sc.p "equed"}" tg
       if eq ≠ .N then nEquil := nEquil + 1
@@ -286,6 +421,28 @@ def handleAll (c : Case) : Res := Id.run do
       if fact == "R" ∧ ab = 0 then nKeptSteps := nKeptSteps + 1
       if sc.pNat "expansions" > 0 then nExpand := nExpand + 1
       if fact == "R" ∧ sc.pNat "expansions" > 0 then nReuseExpand := nReuseExpand + 1
+      -- Corr (c), (d), (e): the allocator model against the sampled states
+      match memRec sc "mem.in", memRec sc "mem.first", memRec sc "mem.out" with
+      | some ain, some afirst, some aout =>
+        if corrMsg.isNone then
+          match lastOut with
+          | some prevOut =>
+            if !(sameSt (stOfRec prevOut) (stOfRec ain) && prevOut.extract 10 13 == ain.extract 10 13) then
+              corrMsg := some s!"step {k} ({fact}): storage: allocator state on entry [{showSt (stOfRec ain)}] is not what the previous factoring call left [{showSt (stOfRec prevOut)}]"
+          | none => pure ()
+        if corrMsg.isNone ∧ fact == "R" then
+          nReuseInit := nReuseInit + 1
+          match corrReuseInit memC ain afirst with
+          | some msg => corrMsg := some s!"step {k} (R): storage: {msg}"
+          | none => pure ()
+        if corrMsg.isNone then
+          nGrowth := nGrowth + 1
+          if fact == "R" ∧ (aout.extract 10 13 != afirst.extract 10 13) then nReuseGrew := nReuseGrew + 1
+          match corrGrowth memW afirst aout with
+          | some msg => corrMsg := some s!"step {k} ({fact}): storage: {msg}"
+          | none => pure ()
+        lastOut := some aout
+      | _, _, _ => pure ()
       -- Corr (a): bit mirror of the pivot routine on every event
       if corrMsg.isNone then
         let ec := match c.ty with
@@ -349,7 +506,8 @@ def handleAll (c : Case) : Res := Id.run do
                         s!"factoredSteps={bucket nFactored}", s!"samePatternSteps={bucket nSamePat}", s!"refreshSteps={bucket (nDofact - 1)}",
                         s!"exactAbandonSteps={bucket nExactAbandon}", s!"equilibratedSteps={bucket nEquil}", s!"expansionSteps={bucket nExpand}", s!"reuseExpansionSteps={bucket nReuseExpand}",
                         s!"trans-kinds={transSeen.length}", if nResync > 0 then "resynced" else "chain-exact",
-                        s!"abandonEvents={bucket nAbandonEv}", s!"keptEvents={bucket nKeptEv}", s!"exactSteps={bucket nExactSteps}"]
+                        s!"abandonEvents={bucket nAbandonEv}", s!"keptEvents={bucket nKeptEv}", s!"exactSteps={bucket nExactSteps}",
+                        s!"allocReuseInits={bucket nReuseInit}", s!"allocGrowthReplays={bucket nGrowth}", s!"allocReuseGrew={bucket nReuseGrew}"]
   return Res.ok (n ≥ 2 ∧ nsteps ≥ 2 ∧ (nSameRow + nSamePat + nFactored) ≥ 1) tags (if allExact then "exact" else "tolerance")
 
 
@@ -360,9 +518,9 @@ def handle (c : Case) : Res :=
   let only := c.p "only" ""
   if only == "" then r else
   -- `p only <a|b|…>`: another property runs these histories for some clauses only (C03: structure:, C02: factors:
-  -- and structure:, C10: order:); a verdict about any other clause is left to C06
+  -- and structure:, C10: order:, C07 / C08: also storage:); a verdict about any other clause is left to C06
   let keys := (only.splitOn "|").map fun k => if k == "struct" then "structure:" else k
-  if r.status == "prop-false" ∧ keys.any (fun k => (r.msg.splitOn k).length > 1) then r
+  if (r.status == "prop-false" ∨ r.status == "corr-mismatch") ∧ keys.any (fun k => (r.msg.splitOn k).length > 1) then r
   else if r.status == "prop-false" ∨ r.status == "corr-mismatch" then Res.ok true r.tags "other-clause"
   else r
 
